@@ -99,6 +99,12 @@ func (mailbox *BoundedMailbox) Dequeue() (msg *ReceiveContext) {
 // IsEmpty reports whether the mailbox currently has no messages.
 // This check is a snapshot and may change immediately under concurrency.
 func (mailbox *BoundedMailbox) IsEmpty() bool {
+	// a disposed ring buffer never hands its remaining items out (Get fails):
+	// reporting them as pending would keep the dispatcher re-scheduling the
+	// actor forever for messages Dequeue can never return
+	if mailbox.underlying.IsDisposed() {
+		return true
+	}
 	return mailbox.underlying.Len() == 0
 }
 
@@ -106,6 +112,9 @@ func (mailbox *BoundedMailbox) IsEmpty() bool {
 // The value is a snapshot and may change immediately after the call under
 // concurrency.
 func (mailbox *BoundedMailbox) Len() int64 {
+	if mailbox.underlying.IsDisposed() {
+		return 0
+	}
 	return int64(mailbox.underlying.Len())
 }
 
